@@ -54,7 +54,7 @@ class BudgetExceeded(BaseException):
     pass
 
 
-def dynamic_edges(files, main):
+def dynamic_edges(files, main, entry=None):
     """Execute the project under sys.setprofile.
     -> {"edges": {edge: primary_parent_info}, "events": [(edge, parent_event_index)], "error": str|None}
     edge = (caller_def, (file, line), callee_def); def = (file, firstlineno, name); module code = (file, 0, '%unit_init')."""
@@ -149,7 +149,12 @@ def dynamic_edges(files, main):
         sys.settrace(tracer)
         sys.setprofile(prof)
         try:
-            runpy.run_path(os.path.join(real, main), run_name="__main__")
+            g = runpy.run_path(os.path.join(real, main), run_name="__main__")
+            if entry:
+                # configured entry point: only what happens under entry["name"](entry["arg"]) is demanded
+                del events[:]
+                frame_event.clear()
+                g[entry["name"]](entry.get("arg", 1))
         finally:
             sys.setprofile(None)
             sys.settrace(None)
@@ -207,7 +212,7 @@ class Static:
         return (c, s, k)
 
 
-def run_lian(files, enable_p2=False):
+def run_lian(files, enable_p2=False, entry=None):
     from harness import lianrun
     lianrun._import()
     from lian.core import global_semantics as gs
@@ -230,7 +235,8 @@ def run_lian(files, enable_p2=False):
     base = tempfile.mkdtemp(prefix="proj-", dir=lianrun.scratch_dir())
     res = None
     try:
-        sd = lianrun.write_settings(os.path.join(base, "settings"), entry=[{"method_list": ["%unit_init"]}])
+        rule = [{"method_list": [entry["name"] if entry else "%unit_init"]}]
+        sd = lianrun.write_settings(os.path.join(base, "settings"), entry=rule)
         res = lianrun.analyze(files, settings_dir=sd, lang="python", enable_p2=enable_p2, workdir=base,
                               capture_flows=False)
         st.stdout = res.stdout[-3000:]
@@ -317,7 +323,7 @@ def evaluate(case, dyn=None, st=None):
     main = case.get("main", "main.py")
     kinds = case.get("kinds", {})
     if dyn is None:
-        dyn = dynamic_edges(files, main)
+        dyn = dynamic_edges(files, main, case.get("entry"))
     info = {"dyn_error": dyn["error"], "dyn_events": len(dyn["events"])}
     events = dyn["events"]
     edges = {}
@@ -327,7 +333,7 @@ def evaluate(case, dyn=None, st=None):
     info["edge_kinds"] = sorted({kind_of(kinds, e) for e in edges})
     info["edges"] = edges
     if st is None:
-        st = run_lian(files, enable_p2=bool(case.get("p2")))
+        st = run_lian(files, enable_p2=bool(case.get("p2")), entry=case.get("entry"))
     info["static"] = st
     out = []
     if st.exc is not None:
@@ -449,16 +455,99 @@ def check_calibration(case, dyn, st):
 
 
 # ---------------------------------------------------------------------------------------------
+# self-check of the in-process driver: the same project through a fresh `lian run` process, read from the files
+
+def cli_sites(case):
+    """-> (set of mapped call sites read from <workspace>/semantic_p3/call_paths_p3 + frontend/gir.bundle*, error)"""
+    import pandas as pd
+    from harness import lianrun
+    base = tempfile.mkdtemp(prefix="lianverif-c07cli-")
+    try:
+        src = os.path.join(base, "in")
+        for rel, text in case["files"].items():
+            q = os.path.join(src, rel)
+            os.makedirs(os.path.dirname(q), exist_ok=True)
+            with open(q, "w", encoding="utf-8") as f:
+                f.write(text)
+        sd = lianrun.write_settings(os.path.join(base, "settings"), entry=[{"method_list": ["%unit_init"]}])
+        ws = os.path.join(base, "ws")
+        argv = ["run", "-l", "python", "-f", "-q", "-w", ws, "--nomock", "--default-settings", sd]
+        if case.get("p2"):
+            argv.append("--enable-p2")
+        r = lianrun.run_cli(argv + [src], cwd=base)
+        if r.returncode != 0:
+            return None, "lian run exited %d: %s" % (r.returncode, r.stdout[-300:])
+        w = os.path.join(ws, "lian_workspace")
+        ms = pd.read_feather(os.path.join(w, "frontend", "module_symbols"))
+        root = os.path.realpath(src) + os.sep
+        unit_rel = {}
+        for row in ms.itertuples():
+            op = getattr(row, "original_path", None)
+            if isinstance(op, str) and op:
+                rp = os.path.realpath(op)
+                unit_rel[int(row.module_id)] = rp[len(root):] if rp.startswith(root) else os.path.basename(rp)
+        methods, stmt_line = {}, {}
+        for name in sorted(os.listdir(os.path.join(w, "frontend"))):
+            if not name.startswith("gir.bundle"):
+                continue
+            g = pd.read_feather(os.path.join(w, "frontend", name))
+            for row in g.itertuples():
+                rel = unit_rel.get(int(row.unit_id))
+                if rel is None:
+                    continue
+                line = 0 if _nan(row.start_row) else int(row.start_row) + 1
+                sid = int(row.stmt_id)
+                if row.operation == "method_decl":
+                    nm = str(row.name)
+                    if nm.startswith("%mm"):
+                        nm = "<lambda>"
+                    methods[sid] = (rel, 0 if nm == "%unit_init" else line, nm)
+                if row.operation not in ("block_start", "block_end") and sid not in stmt_line:
+                    stmt_line[sid] = (rel, line)
+        sites = set()
+        pth = os.path.join(w, "semantic_p3", "call_paths_p3")
+        if os.path.exists(pth):
+            df = pd.read_feather(pth)
+            for path in df.call_path:
+                for cs in path:
+                    a, b, c = int(cs[0]), int(cs[1]), int(cs[2])
+                    if a in methods and b in stmt_line and c in methods:
+                        sites.add((methods[a], stmt_line[b], methods[c]))
+        return sites, None
+    except Exception as e:      # noqa
+        return None, "%s: %s" % (type(e).__name__, e)
+    finally:
+        shutil.rmtree(base, ignore_errors=True)
+
+
+def cli_shard(path):
+    col = Collector()
+    case = common.load_replay(path)["case"]
+    st = run_lian(case["files"], enable_p2=bool(case.get("p2")))
+    sites, err = cli_sites(case)
+    col.extra["cli_cross_checks"] += 1
+    if err:
+        col.error("cli self-check %s: %s" % (os.path.basename(path), err))
+    elif st.exc is not None or sites != st.sites:
+        col.error("cli self-check %s: call sites read from a fresh `lian run` differ from the in-process ones: only-cli %s only-inproc %s" % (
+            os.path.basename(path), sorted(sites - st.sites)[:3], sorted(st.sites - sites)[:3]))
+    return col
+
+
+# ---------------------------------------------------------------------------------------------
 # running cases
 
 def slim(case):
-    return {"files": case["files"], "main": case.get("main", "main.py"), "kinds": case.get("kinds", {}),
-            "p2": bool(case.get("p2"))}
+    out = {"files": case["files"], "main": case.get("main", "main.py"), "kinds": case.get("kinds", {}),
+           "p2": bool(case.get("p2"))}
+    if case.get("entry"):
+        out["entry"] = case["entry"]
+    return out
 
 
 def run_case(col, case, count=True):
     """Execute one case, record labels and discrepancies into col.  Returns (out, info)."""
-    dyn = dynamic_edges(case["files"], case.get("main", "main.py"))
+    dyn = dynamic_edges(case["files"], case.get("main", "main.py"), case.get("entry"))
     if dyn["error"]:
         col.discards["program-raised:" + dyn["error"].split(":")[0]] += 1
         return [], {"dyn_error": dyn["error"]}
@@ -478,6 +567,7 @@ def run_case(col, case, count=True):
     col.label("files:%d" % len(case["files"]))
     if case.get("p2"):
         col.label("mode:enable-p2")
+    col.label("entry:configured-method" if case.get("entry") else "entry:%unit_init")
     col.extra["dynamic_edges"] += info["dyn_edges"]
     col.extra["dynamic_edges_present"] += info["present"]
     col.extra["secondary_missing_edges"] += info["secondary_missing"]
@@ -587,6 +677,12 @@ def main(tier, seed, t0):
                 col.error("calibration %s: %s" % (os.path.basename(path), e))
     if col.errors:
         return common.finish(ID, tier, seed, col, t0, RULE, ASSUMPTIONS)
+    # 1b. self-check of the in-process driver against a fresh `lian run` process (files on disk)
+    cal = [q for q in common.replay_files(ID) if os.path.basename(q).startswith("calibration-")]
+    cal = cal if tier == "thorough" else cal[5:6] + cal[-1:]
+    col.merge(common.run_shards(cli_shard, cal))
+    if col.errors:
+        return common.finish(ID, tier, seed, col, t0, RULE, ASSUMPTIONS)
     # 2. generated projects
     avoid = avoid_set()
     if tier == "quick":
@@ -598,6 +694,15 @@ def main(tier, seed, t0):
     args = [(common.shard_seed(seed, i), per, avoid, p2_pct, True) for i in range(nsh)]
     col.merge(common.run_shards(gen_shard, args))
     col.notes.append("stepped-over (kind, via) pairs: %s" % (avoid,))
+    # 3. thorough tier: reduce the example of every unclassified signature (unit removal preserving the signature)
+    if tier == "thorough":
+        for sig, b in list(col.buckets.items()):
+            kind, _ = common.classify(ID, sig)
+            if kind == "new" and sig[1] != "analysis-failed":
+                try:
+                    b["examples"] = [reduce_case(b["examples"][0], sig, max_lian_runs=80)]
+                except Exception as e:       # noqa
+                    col.notes.append("reduction of %s failed: %r" % (list(sig), e))
     return common.finish(ID, tier, seed, col, t0, RULE, ASSUMPTIONS)
 
 
@@ -627,7 +732,7 @@ def _to_lines(case):
     return out
 
 
-def _from_lines(lines, main, p2):
+def _from_lines(lines, main, p2, entry=None):
     files, kinds = {}, {}
     pos = {}
     for rel, ls in lines.items():
@@ -641,7 +746,10 @@ def _from_lines(lines, main, p2):
     for a, b, v in lines.get("\0edge", []):
         if a in pos and b in pos:
             kinds["%s>%s" % (pos[a], pos[b])] = v
-    return {"files": files, "main": main, "kinds": kinds, "p2": p2}
+    out = {"files": files, "main": main, "kinds": kinds, "p2": p2}
+    if entry:
+        out["entry"] = entry
+    return out
 
 
 def _units(ls):
@@ -669,7 +777,7 @@ def reduce_case(case, sig, max_lian_runs=120, log=None):
     runs = [0]
 
     def fails(lines):
-        cand = _from_lines(lines, main, p2)
+        cand = _from_lines(lines, main, p2, case.get("entry"))
         if main not in cand["files"]:
             return False
         try:
@@ -677,7 +785,7 @@ def reduce_case(case, sig, max_lian_runs=120, log=None):
                 compile(text, rel, "exec")
         except SyntaxError:
             return False
-        dyn = dynamic_edges(cand["files"], main)
+        dyn = dynamic_edges(cand["files"], main, case.get("entry"))
         if dyn["error"]:
             return False
         if runs[0] >= max_lian_runs:
@@ -717,4 +825,4 @@ def reduce_case(case, sig, max_lian_runs=120, log=None):
                     changed = True
                     if log:
                         log("removed %s:%d-%d (lian runs %d)" % (rel, a + 1, b, runs[0]))
-    return _from_lines(lines, main, p2)
+    return _from_lines(lines, main, p2, case.get("entry"))
